@@ -303,8 +303,7 @@ def run_library(case):
                 args = dict(m["args"])
                 for p in f["params"]:
                     if p["name"] not in args and "default" in p:
-                        d = p["default"]
-                        args[p["name"]] = (d == "true") if ir.TYPES[p["T"]]["k"] == "b" else (float(d) if ir.TYPES[p["T"]]["k"] == "r" else int(d))
+                        args[p["name"]] = ir.default_value(p)
                     if p["name"] in args and p.get("T") in ("float", "double") and isinstance(args[p["name"]], int) and not isinstance(args[p["name"]], bool):
                         args[p["name"]] = float(args[p["name"]])
                 if m["expect"] == "new":
